@@ -310,9 +310,8 @@ pub fn judge_item(
         match c {
             Cmd::Reset => tbl = fresh(),
             Cmd::Frame(f) => {
-                if o.panicked {
-                    continue;
-                }
+                // a panic is reported by the C01 oracle; for the functional properties it is
+                // a frame that got no reply
                 let j = model.judge_out(cfg, &mut tbl, f, o);
                 if !sink.classes.contains(&j.class) {
                     sink.class(&j.class);
